@@ -229,6 +229,13 @@ def case_transpose(c):
         PA, AZ, EL = P, np.full(len(P), az), np.full(len(P), el)
     nrec = len(PA)
     azel = (AZ, EL) if c.get('mixed') else (az, el)
+    # interpolation weights are ratios of coordinate differences: their
+    # rounding error grows with |coordinate| / width (grids far from the
+    # origin)
+    far = 64*np.finfo(float).eps*max(
+        np.abs(x).max()/np.diff(x).min()
+        for x in (grid.nodes_x, grid.nodes_y, grid.nodes_z))
+    TOL_E, TOL_M = max(1e-13, far), max(1e-12, far)
     viol = []
     compared = 0
     cnt = {'pairs': nrec}
@@ -636,6 +643,15 @@ def transpose_cases(tier):
     for g in grids:
         out.append({'grid': g, 'az': None, 'el': None, 'fracs': fracs,
                     'mixed': 5 if q else 12, 'mixed_magnetic': False,
+                    'models': list(models[:1]), 'freqs': [1.0], 'imag': 0})
+    # the same functionals on a grid far from the origin with small cells
+    # (UTM-like coordinates): everything depends on positions relative to
+    # the nodes only
+    gfar = {'shape': (4, 5, 4), 'w': ('geo', 'alt', 'rnd'), 'unit': 2.0,
+            'origin': (512000.0, 6704000.25, -2000.0)}
+    for az, el in ((0.0, 0.0), (90.0, 0.0), (45.0, 30.0), (-135.0, -35.0),
+                   (0.0, 90.0)):
+        out.append({'grid': gfar, 'az': az, 'el': el, 'fracs': fracs,
                     'models': list(models[:1]), 'freqs': [1.0], 'imag': 0})
     for ia, az in enumerate(AZIMUTHS):
         for ie, el in enumerate(ELEVATIONS):
